@@ -892,3 +892,825 @@ Proof.
   rewrite Forall_forall in *. intros a Ha. specialize (He a Ha). specialize (Hch a Ha).
   unfold extent_ok, chain_ok in *. lia.
 Qed.
+
+(* ---------- build_area_rows: every feature drawn once, or as two linked consecutive halves ---------- *)
+(* drawn N g fs out g': the list out is the concatenation, feature by feature and in the order of fs, of
+   either one area without a group id, or two consecutive areas that share the fresh group id g+1 (never 0
+   when g >= 0), have the kind of the feature, the same height, and the extents [.., N) and [0, ..);
+   g counts the group ids handed out *)
+Inductive drawn (N : Z) : Z -> list feat -> list area -> Z -> Prop :=
+| drawn_nil g : drawn N g [] [] g
+| drawn_one g f a fs out g' :
+    a_group a = 0 -> a_kind a = fkind f ->
+    drawn N g fs out g' -> drawn N g (f :: fs) (a :: out) g'
+| drawn_two g f a e fs out g' :
+    a_group a = g + 1 -> a_group e = g + 1 -> a_kind a = fkind f -> a_kind e = fkind f ->
+    a_height e = a_height a -> a_ne a = N -> a_ns e = 0 ->
+    drawn N (g + 1) fs out g' -> drawn N g (f :: fs) (a :: e :: out) g'.
+
+Lemma drawn_app N g fs out g1 : drawn N g fs out g1 ->
+  forall fs' out' g2, drawn N g1 fs' out' g2 -> drawn N g (fs ++ fs') (out ++ out') g2.
+Proof.
+  induction 1; intros fs' out' g2 H'; cbn [app].
+  - exact H'.
+  - apply drawn_one; auto.
+  - apply drawn_two; auto.
+Qed.
+
+Lemma drawn_mono N g fs out g' : drawn N g fs out g' -> g <= g'.
+Proof. induction 1; lia. Qed.
+
+Lemma area_drawn rloc N ext h conv grp f st' :
+  add_area_from_feature rloc N ext h (conv, grp) f = Ok st' ->
+  exists added grp', st' = (conv ++ added, grp') /\ drawn N grp [f] added grp' /\
+                     Forall (fun a => a_height a = h) added.
+Proof.
+  intros H.
+  pose proof (from_feature_facts f h) as F. cbv zeta in F.
+  destruct F as (Fk & Fns & Fne & Fg & Fh & _).
+  unfold add_area_from_feature in H.
+  destruct (ext && fcrosses f).
+  - destruct (negb (area_crosses (from_feature f h))); [discriminate|].
+    destruct (adjust_cross_origin_area (from_feature f h) f (bridges rloc) N (grp + 1)) as [[a' oe]|k] eqn:Eadj;
+      cbn [bind] in H; [|discriminate].
+    destruct (adjust_extents _ _ _ _ _ _ _ Fg Eadj) as (Hns & Hk & Hh & Htrue & Hfalse).
+    destruct (bridges rloc).
+    + destruct (Htrue eq_refl) as (Hoe & Hgr & _). subst oe. inversion H; subst st'.
+      exists [a'], grp. split; [reflexivity|]. split.
+      * apply drawn_one; [assumption|congruence|constructor].
+      * constructor; [congruence|constructor].
+    + destruct (Hfalse eq_refl) as (e & Hoe & Hne & Hens & _ & Hek & Heh & Hga & Hge). subst oe.
+      inversion H; subst st'.
+      exists [a'; e], (grp + 1). split; [reflexivity|]. split.
+      * apply drawn_two; try congruence. constructor.
+      * constructor; [congruence|]. constructor; [congruence|constructor].
+  - assert (Hd : forall a, a_group a = 0 -> a_kind a = fkind f -> a_height a = h ->
+                  exists added grp', (conv ++ [a], grp) = (conv ++ added, grp') /\ drawn N grp [f] added grp' /\
+                                     Forall (fun a => a_height a = h) added).
+    { intros a H1 H2 H3. exists [a], grp. split; [reflexivity|]. split.
+      - apply drawn_one; [assumption|assumption|constructor].
+      - constructor; [assumption|constructor]. }
+    destruct (ext && contains [last_part rloc] (floc f)).
+    + destruct (bridges rloc); inversion H; subst st'; apply Hd; cbn; assumption.
+    + inversion H; subst st'; apply Hd; assumption.
+Qed.
+
+Lemma row_features_drawn rloc N ext h fs : forall st st',
+  add_row_features rloc N ext h st fs = Ok st' ->
+  exists added, fst st' = fst st ++ added /\ drawn N (snd st) fs added (snd st') /\
+                Forall (fun a => a_height a = h) added.
+Proof.
+  induction fs as [|f more IH]; intros st st' H; cbn [add_row_features] in H.
+  - inversion H; subst. exists []. rewrite app_nil_r. repeat split; constructor.
+  - destruct (add_area_from_feature rloc N ext h st f) as [st1|k] eqn:E; cbn [bind] in H; [|discriminate].
+    destruct st as [conv grp].
+    destruct (area_drawn _ _ _ _ _ _ _ _ E) as (a1 & g1 & Hst1 & Hd1 & Hh1). subst st1.
+    destruct (IH _ _ H) as (a2 & Hfst & Hd2 & Hh2). cbn [fst snd] in *.
+    exists (a1 ++ a2). split; [rewrite Hfst, app_assoc; reflexivity|]. split.
+    + exact (drawn_app _ _ _ _ _ Hd1 _ _ _ Hd2).
+    + apply Forall_app. split; assumption.
+Qed.
+
+Lemma rows_drawn rloc N ext rows : forall h st st' h',
+  add_rows rloc N ext h st rows = Ok (st', h') ->
+  exists added, fst st' = fst st ++ added /\ drawn N (snd st) (contents_of rows) added (snd st').
+Proof.
+  induction rows as [|rw more IH]; intros h st st' h' H; cbn [add_rows] in H.
+  - inversion H; subst. exists []. rewrite app_nil_r. split; [reflexivity|constructor].
+  - destruct (add_row_features rloc N ext h st (r_contents rw)) as [st1|k] eqn:E; cbn [bind] in H; [|discriminate].
+    destruct (row_features_drawn _ _ _ _ _ _ _ E) as (a1 & Hf1 & Hd1 & _).
+    destruct (IH _ _ _ _ H) as (a2 & Hf2 & Hd2).
+    exists (a1 ++ a2). split; [rewrite Hf2, Hf1, app_assoc; reflexivity|].
+    unfold contents_of. cbn [flat_map]. exact (drawn_app _ _ _ _ _ Hd1 _ _ _ Hd2).
+Qed.
+
+Lemma insert_by_perm {A} (lt : A -> A -> bool) x l : Permutation (insert_by lt x l) (x :: l).
+Proof.
+  induction l as [|y l IH]; cbn [insert_by]; [apply Permutation_refl|].
+  destruct (lt x y); [apply Permutation_refl|].
+  eapply Permutation_trans; [apply perm_skip; exact IH|apply perm_swap].
+Qed.
+
+Lemma sort_fold_perm {A} (lt : A -> A -> bool) l : forall acc,
+  Permutation (fold_left (fun acc x => insert_by lt x acc) l acc) (acc ++ l).
+Proof.
+  induction l as [|x l IH]; intros acc; cbn [fold_left].
+  - rewrite app_nil_r. apply Permutation_refl.
+  - eapply Permutation_trans; [apply IH|].
+    eapply Permutation_trans; [apply Permutation_app_tail; apply insert_by_perm|].
+    cbn [app]. apply Permutation_middle.
+Qed.
+
+Lemma sort_by_perm {A} (lt : A -> A -> bool) l : Permutation (sort_by lt l) l.
+Proof. unfold sort_by. exact (sort_fold_perm lt l []). Qed.
+
+Lemma unique_perm rloc protos : Permutation (unique_protoclusters rloc protos) protos.
+Proof.
+  unfold unique_protoclusters. destruct (negb (bridges rloc)).
+  - eapply Permutation_trans; apply sort_by_perm.
+  - apply sort_by_perm.
+Qed.
+
+Lemma contents_of_app r1 r2 : contents_of (r1 ++ r2) = contents_of r1 ++ contents_of r2.
+Proof. unfold contents_of. apply flat_map_app. Qed.
+
+Definition drawn_candidates (subs cands : list feat) : list feat :=
+  filter (fun c => nonempty subs || negb (fsingle c)) cands.
+
+Lemma build_complete rloc N circ subs cands protos out :
+  build_area_rows rloc N circ subs cands protos = Ok out ->
+  exists fs g', Permutation fs (drawn_candidates subs cands ++ subs ++ protos) /\ drawn N 0 fs out g'.
+Proof.
+  intros H. unfold build_area_rows in H.
+  destruct (pack subs (-1)) as [sub_rows|k] eqn:E1; cbn [bind] in H; [|discriminate].
+  destruct (pack (filter (fun c => nonempty subs || negb (fsingle c)) cands) (-1)) as [cand_rows|k] eqn:E2;
+    cbn [bind] in H; [|discriminate].
+  destruct (pack (unique_protoclusters rloc protos) (-1)) as [proto_rows|k] eqn:E3; cbn [bind] in H; [|discriminate].
+  destruct (add_rows rloc N (extend_over_origin rloc N circ) 0 ([], 0) (cand_rows ++ sub_rows)) as [[st height]|k] eqn:E4;
+    cbn [bind] in H; [|discriminate].
+  match type of H with (do r2 <- add_rows _ _ _ ?hh _ _; _) = _ =>
+    destruct (add_rows rloc N (extend_over_origin rloc N circ) hh st proto_rows) as [[st2 h2]|k] eqn:E5 end;
+    cbn [bind] in H; [|discriminate].
+  inversion H; subst out. cbn [fst].
+  destruct (rows_drawn _ _ _ _ _ _ _ _ E4) as (a1 & Hf1 & Hd1).
+  destruct (rows_drawn _ _ _ _ _ _ _ _ E5) as (a2 & Hf2 & Hd2).
+  cbn [fst snd app] in *.
+  exists (contents_of (cand_rows ++ sub_rows) ++ contents_of proto_rows), (snd st2). split.
+  - rewrite contents_of_app. rewrite <- app_assoc.
+    apply Permutation_app; [exact (pack_complete _ _ _ E2)|].
+    apply Permutation_app; [exact (pack_complete _ _ _ E1)|].
+    eapply Permutation_trans; [exact (pack_complete _ _ _ E3)|apply unique_perm].
+  - rewrite Hf2, Hf1. exact (drawn_app _ _ _ _ _ Hd1 _ _ _ Hd2).
+Qed.
+
+(* the decidable test of the harness (count_drawn) accepts every output of this shape and counts the
+   features of each kind *)
+Lemma count_kind_cons k f fs :
+  count_kind k (f :: fs) = if fkind f =? k then count_kind k fs + 1 else count_kind k fs.
+Proof.
+  unfold count_kind. cbn [filter]. destruct (fkind f =? k); [|reflexivity].
+  unfold zlen. cbn [length]. lia.
+Qed.
+
+Lemma drawn_count N k g fs out g' :
+  drawn N g fs out g' -> 0 <= g -> count_drawn N k out = Some (count_kind k fs).
+Proof.
+  induction 1; intros Hg.
+  - reflexivity.
+  - cbn [count_drawn]. rewrite H. cbn [Z.eqb]. rewrite (IHdrawn Hg), count_kind_cons, H0. reflexivity.
+  - cbn [count_drawn].
+    assert (Hz : (a_group a =? 0) = false) by lia. rewrite Hz.
+    assert (Hc : ((a_group e =? a_group a) && (a_kind e =? a_kind a) && (a_ne a =? N) && (a_ns e =? 0)) = true) by lia.
+    rewrite Hc. rewrite IHdrawn by lia. rewrite count_kind_cons, H1. reflexivity.
+Qed.
+
+(* ---------- build_area_rows: areas of one row (same height) do not overlap ---------- *)
+Definition ext (a : area) : Z * Z := (a_ns a, a_ne a).
+
+(* what is drawn for a feature, in the coordinates of the region: an origin-crossing region is unrolled
+   (positions after the origin shifted by N), a whole-record region shows an origin-crossing area as the two
+   pieces [start, N) and [0, end) *)
+Definition emitted_extents (rloc : loc) (N : Z) (f : feat) : list (Z * Z) :=
+  if bridges rloc then
+    if fcrosses f then [(fstart f, fend f + N)]
+    else if contains [last_part rloc] (floc f) then [(fstart f + N, fend f + N)]
+    else [(fstart f, fend f)]
+  else if fcrosses f then [(fstart f, N); (0, fend f)] else [(fstart f, fend f)].
+
+Lemma area_emitted N circ rloc f h conv grp st' :
+  wf_region N rloc -> wf_feat_ring N f -> contains rloc (floc f) = true ->
+  (bridges rloc = true \/ fcrosses f = true -> circ = true) ->
+  add_area_from_feature rloc N (extend_over_origin rloc N circ) h (conv, grp) f = Ok st' ->
+  exists added, fst st' = conv ++ added /\ map ext added = emitted_extents rloc N f.
+Proof.
+  intros Hr Hf Hcont Hguard H.
+  pose proof (from_feature_facts f h) as F. cbv zeta in F.
+  destruct F as (Fk & Fns & Fne & Fg & Fh & _ & Fnone & _).
+  unfold add_area_from_feature in H. unfold emitted_extents, ext. unfold fcrosses, fstart, fend in *.
+  destruct Hr as [(r & Er & Hr0 & Hr1 & Hr2)|(r1 & r2 & Er & Hs1 & Hs2 & Hr0 & Hr1 & Hr2 & Hr3 & Hr4 & Hr5)];
+  destruct Hf as [(p & Ef & Hp0 & Hp1 & Hp2)|(p & q & Ef & Ht1 & Ht2 & Hp0 & Hp1 & Hp2 & Hp3 & Hp4 & Hp5)].
+  - destruct (loc1_facts r) as (Rb & Rs & Re & Rls & Rle & Rlast).
+    destruct (loc1_facts p) as (Pb & Ps & Pe & _).
+    rewrite Er, Ef in *. rewrite Pb in H. rewrite Rb in H. rewrite andb_false_r in H.
+    rewrite Rb, Pb.
+    exists [from_feature f h]. split.
+    + destruct (extend_over_origin [r] N circ && contains [last_part [r]] [p]); inversion H; reflexivity.
+    + cbn [map]. rewrite Fns, Fne. reflexivity.
+  - destruct (loc1_facts r) as (Rb & Rs & Re & Rls & Rle & Rlast).
+    destruct (loc2_facts p q Ht1 Ht2 Hp3 Hp0) as (Pb & Ps & Pe & _).
+    rewrite Er, Ef in *.
+    unfold contains in Hcont. cbn [forallb existsb] in Hcont. unfold part_contains in Hcont.
+    assert (Hc : circ = true) by (apply Hguard; right; assumption).
+    assert (Hext : extend_over_origin [r] N circ = true).
+    { unfold extend_over_origin. rewrite Hc, Rb, Rs, Re. clear - Hcont Hr0 Hr2 Hp2 Hp3. lia. }
+    rewrite Hext, Pb in H. cbn [andb] in H.
+    assert (Hac : area_crosses (from_feature f h) = true).
+    { unfold area_crosses. rewrite Fns, Fne, Ps, Pe. clear - Hp5. lia. }
+    rewrite Hac in H. cbn [negb] in H. rewrite Rb in H.
+    destruct (adjust_cross_origin_area (from_feature f h) f false N (grp + 1)) as [[a' oe]|k] eqn:Eadj;
+      cbn [bind] in H; [|discriminate].
+    destruct (adjust_extents _ _ _ _ _ _ _ Fg Eadj) as (Hns & Hk & Hh & _ & Hfalse).
+    destruct (Hfalse eq_refl) as (e & Hoe & Hne & Hens & Hene & Hek & Heh & _).
+    subst oe. inversion H; subst st'. cbn [fst].
+    exists [a'; e]. split; [reflexivity|].
+    assert (Hene' : a_ne e = pe q).
+    { rewrite Hene. destruct (proto_core f); [rewrite Fne, Pe; reflexivity|unfold fend; rewrite Ef; exact Pe]. }
+    rewrite Rb, Pb. cbn [map]. rewrite Hns, Hne, Hens, Hene', Fns, Ps, Pe. reflexivity.
+  - destruct (loc2_facts r1 r2 Hs1 Hs2 Hr3 Hr0) as (Rb & Rs & Re & Rlast & Rfirst).
+    destruct (loc1_facts p) as (Pb & Ps & Pe & _).
+    rewrite Er, Ef in *.
+    assert (Hc : circ = true) by (apply Hguard; left; assumption).
+    assert (Hext : extend_over_origin [r1; r2] N circ = true).
+    { unfold extend_over_origin. rewrite Hc, Rb. reflexivity. }
+    rewrite Hext, Pb, Rb, Rlast in H. cbn [andb] in H.
+    rewrite Rb, Pb, Rlast.
+    destruct (contains [r2] [p]) eqn:Hin2.
+    + inversion H; subst st'. cbn [fst]. exists [area_offset (from_feature f h) N].
+      split; [reflexivity|]. unfold area_offset. cbn [map a_ns a_ne]. rewrite Fns, Fne. reflexivity.
+    + inversion H; subst st'. cbn [fst]. exists [from_feature f h].
+      split; [reflexivity|]. cbn [map]. rewrite Fns, Fne. reflexivity.
+  - destruct (loc2_facts r1 r2 Hs1 Hs2 Hr3 Hr0) as (Rb & Rs & Re & Rlast & Rfirst).
+    destruct (loc2_facts p q Ht1 Ht2 Hp3 Hp0) as (Pb & Ps & Pe & _).
+    rewrite Er, Ef in *.
+    assert (Hc : circ = true) by (apply Hguard; left; assumption).
+    assert (Hext : extend_over_origin [r1; r2] N circ = true).
+    { unfold extend_over_origin. rewrite Hc, Rb. reflexivity. }
+    rewrite Hext, Pb in H. cbn [andb] in H.
+    assert (Hac : area_crosses (from_feature f h) = true).
+    { unfold area_crosses. rewrite Fns, Fne, Ps, Pe. clear - Hp5. lia. }
+    rewrite Hac in H. cbn [negb] in H. rewrite Rb in H.
+    destruct (adjust_cross_origin_area (from_feature f h) f true N (grp + 1)) as [[a' oe]|k] eqn:Eadj;
+      cbn [bind] in H; [|discriminate].
+    destruct (adjust_extents _ _ _ _ _ _ _ Fg Eadj) as (Hns & Hk & Hh & Htrue & _).
+    destruct (Htrue eq_refl) as (Hoe & _ & Hne).
+    subst oe. inversion H; subst st'. cbn [fst].
+    exists [a']. split; [reflexivity|].
+    assert (Hne' : a_ne a' = pe q + N).
+    { rewrite Hne. destruct (proto_core f) eqn:Ec; [rewrite Fne, Pe; reflexivity|].
+      destruct (Fnone eq_refl) as (_ & He). rewrite He, Pe. reflexivity. }
+    rewrite Rb, Pb. cbn [map]. rewrite Hns, Hne', Fns, Ps, Pe. reflexivity.
+Qed.
+
+Definition idisj (i j : Z * Z) : Prop := snd i <= fst j \/ snd j <= fst i.
+
+Lemma idisj_sym i j : idisj i j -> idisj j i.
+Proof. unfold idisj. tauto. Qed.
+
+(* shape of the emitted extents, by the shape of the feature *)
+Lemma emitted_single rloc N f p : floc f = [p] ->
+  emitted_extents rloc N f =
+    if bridges rloc then if contains [last_part rloc] [p] then [(ps p + N, pe p + N)] else [(ps p, pe p)]
+    else [(ps p, pe p)].
+Proof.
+  intros E. destruct (single_facts f p E) as (Hc & Hs & He).
+  unfold emitted_extents. rewrite Hc, Hs, He, E. reflexivity.
+Qed.
+
+Lemma emitted_double rloc N f p q : floc f = [p; q] -> pst p = 1 -> pst q = 1 -> ps q = 0 -> 0 < ps p ->
+  emitted_extents rloc N f = if bridges rloc then [(ps p, pe q + N)] else [(ps p, N); (0, pe q)].
+Proof.
+  intros E H1 H2 H3 H4. destruct (double_facts f p q E H1 H2 H3 H4) as (Hc & Hs & He & _).
+  unfold emitted_extents. rewrite Hc, Hs, He. reflexivity.
+Qed.
+
+(* two areas that do not overlap on the ring are drawn over disjoint stretches *)
+Lemma pair_disjoint N circ rloc x y :
+  wf_region N rloc -> feat_ok N circ rloc x -> feat_ok N circ rloc y -> apart x y ->
+  forall i j, In i (emitted_extents rloc N x) -> In j (emitted_extents rloc N y) -> idisj i j.
+Proof.
+  intros Hr (Hx & Hcx & _) (Hy & Hcy & _) Hap i j Hi Hj.
+  unfold apart, overlap in Hap. unfold contains in Hcx, Hcy.
+  destruct Hr as [(r & Er & Hr0 & Hr1 & Hr2)|(r1 & r2 & Er & Hs1 & Hs2 & Hr0 & Hr1 & Hr2 & Hr3 & Hr4 & Hr5)].
+  - destruct (loc1_facts r) as (Rb & _). subst rloc.
+    destruct Hx as [(p & Ex & Hp0 & Hp1 & Hp2)|(p & q & Ex & Ht1 & Ht2 & Hp0 & Hp1 & Hp2 & Hp3 & Hp4 & Hp5)];
+    destruct Hy as [(p' & Ey & Hq0 & Hq1 & Hq2)|(p' & q' & Ey & Hu1 & Hu2 & Hq0 & Hq1 & Hq2 & Hq3 & Hq4 & Hq5)].
+    + rewrite (emitted_single _ _ _ _ Ex), Rb in Hi. rewrite (emitted_single _ _ _ _ Ey), Rb in Hj.
+      rewrite Ex, Ey in Hap. cbn [existsb] in Hap. unfold part_overlap, in_part in Hap.
+      destruct Hi as [Hi|[]]; destruct Hj as [Hj|[]]; subst i j. unfold idisj. cbn [fst snd].
+      clear - Hap Hp1 Hq1. lia.
+    + rewrite (emitted_single _ _ _ _ Ex), Rb in Hi. rewrite (emitted_double _ _ _ _ _ Ey Hu1 Hu2 Hq3 Hq0), Rb in Hj.
+      rewrite Ex, Ey in Hap. cbn [existsb] in Hap. unfold part_overlap, in_part in Hap.
+      destruct Hi as [Hi|[]]; destruct Hj as [Hj|[Hj|[]]]; subst i j; unfold idisj; cbn [fst snd];
+        clear - Hap Hp1 Hq1 Hq2 Hq3 Hq4; lia.
+    + rewrite (emitted_double _ _ _ _ _ Ex Ht1 Ht2 Hp3 Hp0), Rb in Hi. rewrite (emitted_single _ _ _ _ Ey), Rb in Hj.
+      rewrite Ex, Ey in Hap. cbn [existsb] in Hap. unfold part_overlap, in_part in Hap.
+      destruct Hi as [Hi|[Hi|[]]]; destruct Hj as [Hj|[]]; subst i j; unfold idisj; cbn [fst snd];
+        clear - Hap Hq1 Hp1 Hp2 Hp3 Hp4; lia.
+    + exfalso. rewrite Ex, Ey in Hap. cbn [existsb] in Hap. unfold part_overlap, in_part in Hap.
+      clear - Hap Hp1 Hp2 Hq1 Hq2. lia.
+  - destruct (loc2_facts r1 r2 Hs1 Hs2 Hr3 Hr0) as (Rb & _ & _ & Rlast & _). subst rloc.
+    destruct Hx as [(p & Ex & Hp0 & Hp1 & Hp2)|(p & q & Ex & Ht1 & Ht2 & Hp0 & Hp1 & Hp2 & Hp3 & Hp4 & Hp5)];
+    destruct Hy as [(p' & Ey & Hq0 & Hq1 & Hq2)|(p' & q' & Ey & Hu1 & Hu2 & Hq0 & Hq1 & Hq2 & Hq3 & Hq4 & Hq5)].
+    + rewrite (emitted_single _ _ _ _ Ex), Rb, Rlast in Hi. rewrite (emitted_single _ _ _ _ Ey), Rb, Rlast in Hj.
+      rewrite Ex, Ey in *. cbn [existsb forallb] in Hap, Hcx, Hcy. unfold contains in Hi, Hj. cbn [existsb forallb] in Hi, Hj.
+      unfold part_overlap, in_part in Hap. unfold part_contains in *.
+      destruct ((ps r2 <=? ps p) && (ps p <=? pe p) && (pe p <=? pe r2) || false) eqn:B1;
+      destruct ((ps r2 <=? ps p') && (ps p' <=? pe p') && (pe p' <=? pe r2) || false) eqn:B2; cbn [andb] in Hi, Hj;
+      destruct Hi as [Hi|[]]; destruct Hj as [Hj|[]]; subst i j; unfold idisj; cbn [fst snd];
+        clear - Hap Hcx Hcy B1 B2 Hp0 Hp1 Hp2 Hq0 Hq1 Hq2 Hr0 Hr1 Hr2 Hr3 Hr4 Hr5; lia.
+    + rewrite (emitted_single _ _ _ _ Ex), Rb, Rlast in Hi. rewrite (emitted_double _ _ _ _ _ Ey Hu1 Hu2 Hq3 Hq0), Rb in Hj.
+      rewrite Ex, Ey in *. cbn [existsb forallb] in Hap, Hcx. unfold contains in Hi. cbn [existsb forallb] in Hi.
+      unfold part_overlap, in_part in Hap. unfold part_contains in *.
+      destruct ((ps r2 <=? ps p) && (ps p <=? pe p) && (pe p <=? pe r2) || false) eqn:B1; cbn [andb] in Hi;
+      destruct Hi as [Hi|[]]; destruct Hj as [Hj|[]]; subst i j; unfold idisj; cbn [fst snd];
+        clear - Hap Hcx B1 Hp0 Hp1 Hp2 Hq0 Hq1 Hq2 Hq3 Hq4 Hq5 Hr0 Hr1 Hr2 Hr3 Hr4 Hr5; lia.
+    + rewrite (emitted_double _ _ _ _ _ Ex Ht1 Ht2 Hp3 Hp0), Rb in Hi. rewrite (emitted_single _ _ _ _ Ey), Rb, Rlast in Hj.
+      rewrite Ex, Ey in *. cbn [existsb forallb] in Hap, Hcy. unfold contains in Hj. cbn [existsb forallb] in Hj.
+      unfold part_overlap, in_part in Hap. unfold part_contains in *.
+      destruct ((ps r2 <=? ps p') && (ps p' <=? pe p') && (pe p' <=? pe r2) || false) eqn:B2; cbn [andb] in Hj;
+      destruct Hi as [Hi|[]]; destruct Hj as [Hj|[]]; subst i j; unfold idisj; cbn [fst snd];
+        clear - Hap Hcy B2 Hq0 Hq1 Hq2 Hp0 Hp1 Hp2 Hp3 Hp4 Hp5 Hr0 Hr1 Hr2 Hr3 Hr4 Hr5; lia.
+    + exfalso. rewrite Ex, Ey in Hap. cbn [existsb] in Hap. unfold part_overlap, in_part in Hap.
+      clear - Hap Hp1 Hp2 Hq1 Hq2. lia.
+Qed.
+
+(* the two halves of one split area are disjoint *)
+Lemma self_disjoint N circ rloc x :
+  wf_region N rloc -> feat_ok N circ rloc x -> ForallOrdPairs idisj (emitted_extents rloc N x).
+Proof.
+  intros Hr (Hx & _).
+  destruct Hx as [(p & Ex & Hp0 & Hp1 & Hp2)|(p & q & Ex & Ht1 & Ht2 & Hp0 & Hp1 & Hp2 & Hp3 & Hp4 & Hp5)].
+  - rewrite (emitted_single _ _ _ _ Ex).
+    destruct (bridges rloc); [destruct (contains [last_part rloc] [p])|]; repeat constructor.
+  - rewrite (emitted_double _ _ _ _ _ Ex Ht1 Ht2 Hp3 Hp0).
+    destruct (bridges rloc); [repeat constructor|].
+    constructor; [|repeat constructor].
+    constructor; [|constructor]. unfold idisj. cbn [fst snd]. lia.
+Qed.
+
+Lemma FOP_app {A} (R : A -> A -> Prop) l1 l2 :
+  ForallOrdPairs R l1 -> ForallOrdPairs R l2 -> (forall a b, In a l1 -> In b l2 -> R a b) ->
+  ForallOrdPairs R (l1 ++ l2).
+Proof.
+  induction l1 as [|x l1 IH]; intros H1 H2 H12; cbn [app]; [exact H2|].
+  inversion H1 as [|x' l' Hx Hl]; subst. constructor.
+  - apply Forall_app. split; [exact Hx|]. apply Forall_forall. intros b Hb. apply H12; [left; reflexivity|exact Hb].
+  - apply IH; [exact Hl|exact H2|]. intros a b Ha Hb. apply H12; [right; exact Ha|exact Hb].
+Qed.
+
+Lemma FOP_map {A B} (R : B -> B -> Prop) (f : A -> B) l :
+  ForallOrdPairs R (map f l) -> ForallOrdPairs (fun a b => R (f a) (f b)) l.
+Proof.
+  induction l as [|x l IH]; cbn [map]; intros H; [constructor|].
+  inversion H as [|x' l' Hx Hl]; subst. constructor; [|apply IH; exact Hl].
+  apply Forall_forall. intros b Hb. rewrite Forall_forall in Hx. apply Hx. apply in_map. exact Hb.
+Qed.
+
+Lemma row_extents_disjoint N circ rloc fs :
+  wf_region N rloc -> Forall (feat_ok N circ rloc) fs -> ForallOrdPairs apart fs ->
+  ForallOrdPairs idisj (flat_map (emitted_extents rloc N) fs).
+Proof.
+  intros Hr Hok Hap. induction Hap as [|x l Hx Hl IH]; cbn [flat_map]; [constructor|].
+  inversion Hok as [|x' l' Hokx Hokl]; subst.
+  apply FOP_app; [exact (self_disjoint N circ rloc x Hr Hokx)|exact (IH Hokl)|].
+  intros a b Ha Hb. apply in_flat_map in Hb. destruct Hb as (y & Hy & Hb).
+  rewrite Forall_forall in Hx, Hokl.
+  exact (pair_disjoint N circ rloc x y Hr Hokx (Hokl y Hy) (Hx y Hy) a b Ha Hb).
+Qed.
+
+Definition adisj (a b : area) : Prop := a_ne a <= a_ns b \/ a_ne b <= a_ns a.
+
+Lemma row_features_emitted N circ rloc h fs : forall st st',
+  wf_region N rloc -> Forall (feat_ok N circ rloc) fs ->
+  add_row_features rloc N (extend_over_origin rloc N circ) h st fs = Ok st' ->
+  exists added, fst st' = fst st ++ added /\ map ext added = flat_map (emitted_extents rloc N) fs.
+Proof.
+  induction fs as [|f more IH]; intros st st' Hr Hfs H; cbn [add_row_features] in H.
+  - inversion H; subst. exists []. rewrite app_nil_r. split; reflexivity.
+  - inversion Hfs as [|f0 m0 (Hwf & Hcont & Hg) Hm]; subst.
+    destruct (add_area_from_feature rloc N (extend_over_origin rloc N circ) h st f) as [st1|k] eqn:E;
+      cbn [bind] in H; [|discriminate].
+    destruct st as [conv grp].
+    destruct (area_emitted N circ rloc f h conv grp st1 Hr Hwf Hcont Hg E) as (a1 & Hf1 & He1).
+    destruct (IH _ _ Hr Hm H) as (a2 & Hf2 & He2). cbn [fst] in *.
+    exists (a1 ++ a2). split; [rewrite Hf2, Hf1, app_assoc; reflexivity|].
+    rewrite map_app, He1, He2. reflexivity.
+Qed.
+
+(* one row: all at height h, pairwise disjoint *)
+Lemma row_features_disjoint N circ rloc h fs st st' :
+  wf_region N rloc -> Forall (feat_ok N circ rloc) fs -> ForallOrdPairs apart fs ->
+  add_row_features rloc N (extend_over_origin rloc N circ) h st fs = Ok st' ->
+  exists added, fst st' = fst st ++ added /\ Forall (fun a => a_height a = h) added /\
+                ForallOrdPairs adisj added.
+Proof.
+  intros Hr Hok Hap H.
+  destruct (row_features_emitted N circ rloc h fs st st' Hr Hok H) as (a1 & Hf1 & He1).
+  destruct (row_features_drawn _ _ _ _ _ _ _ H) as (a2 & Hf2 & _ & Hh2).
+  assert (a1 = a2) by (rewrite Hf1 in Hf2; exact (app_inv_head _ _ _ Hf2)). subst a2.
+  exists a1. split; [exact Hf1|]. split; [exact Hh2|].
+  pose proof (row_extents_disjoint N circ rloc fs Hr Hok Hap) as Hd. rewrite <- He1 in Hd.
+  apply FOP_map in Hd. exact Hd.
+Qed.
+
+Definition same_row_disjoint (a b : area) : Prop := a_height a = a_height b -> adisj a b.
+
+Definition row_good (N : Z) (circ : bool) (rloc : loc) (rw : row) : Prop :=
+  Forall (feat_ok N circ rloc) (r_contents rw) /\ ForallOrdPairs apart (r_contents rw).
+
+Lemma add_rows_disjoint N circ rloc rows : forall h st st' h',
+  wf_region N rloc -> Forall (row_good N circ rloc) rows ->
+  ForallOrdPairs same_row_disjoint (fst st) -> Forall (fun a => a_height a < h) (fst st) ->
+  add_rows rloc N (extend_over_origin rloc N circ) h st rows = Ok (st', h') ->
+  ForallOrdPairs same_row_disjoint (fst st') /\ Forall (fun a => a_height a < h') (fst st') /\ h <= h'.
+Proof.
+  induction rows as [|rw more IH]; intros h st st' h' Hr Hrows Hd Hlt H; cbn [add_rows] in H.
+  - inversion H; subst. split; [exact Hd|]. split; [exact Hlt|lia].
+  - inversion Hrows as [|r0 m0 (Hok & Hap) Hm]; subst.
+    destruct (add_row_features rloc N (extend_over_origin rloc N circ) h st (r_contents rw)) as [st1|k] eqn:E;
+      cbn [bind] in H; [|discriminate].
+    destruct (row_features_disjoint N circ rloc h _ st st1 Hr Hok Hap E) as (added & Hf & Hh & Hdis).
+    assert (Hd1 : ForallOrdPairs same_row_disjoint (fst st1)).
+    { rewrite Hf. apply FOP_app; [exact Hd| |].
+      - clear - Hdis. induction Hdis as [|x l Hx Hl IHl]; constructor; [|exact IHl].
+        eapply Forall_impl; [|exact Hx]. intros b Hb _. exact Hb.
+      - intros a b Ha Hb Heq. exfalso. rewrite Forall_forall in Hlt, Hh.
+        specialize (Hlt a Ha). specialize (Hh b Hb). lia. }
+    assert (Hlt1 : Forall (fun a => a_height a < h + 2) (fst st1)).
+    { rewrite Hf. apply Forall_app. split.
+      - eapply Forall_impl; [|exact Hlt]. cbn beta. intros; lia.
+      - eapply Forall_impl; [|exact Hh]. cbn beta. intros; lia. }
+    destruct (IH _ _ _ _ Hr Hm Hd1 Hlt1 H) as (R1 & R2 & R3).
+    split; [exact R1|]. split; [exact R2|lia].
+Qed.
+
+Lemma wf_ring_wf_feat N f : wf_feat_ring N f -> wf_feat f.
+Proof.
+  unfold wf_feat. intros [(p & E & H0 & H1 & H2)|(p & q & E & H1 & H2 & H3 & H4 & H5 & H6 & H7 & H8)]; rewrite E.
+  - lia.
+  - repeat split; try assumption; lia.
+Qed.
+
+Lemma rows_good N circ rloc areas len rows :
+  Forall (feat_ok N circ rloc) areas -> pack areas len = Ok rows -> Forall (row_good N circ rloc) rows.
+Proof.
+  intros Hall H.
+  assert (Hwf : Forall wf_feat areas).
+  { eapply Forall_impl; [|exact Hall]. intros a (Ha & _). exact (wf_ring_wf_feat N a Ha). }
+  pose proof (pack_no_overlap areas len rows Hwf H) as Hno.
+  pose proof (rows_feat_ok N circ rloc areas len rows Hall H) as Hok.
+  rewrite Forall_forall in *. intros r Hr. split; [exact (Hok r Hr)|].
+  specialize (Hno r Hr). clear - Hno.
+  induction Hno as [|x l Hx Hl IH]; constructor; [|exact IH].
+  eapply Forall_impl; [|exact Hx]. intros y (Hy & _). exact Hy.
+Qed.
+
+(* at the observation point: two areas returned by build_area_rows with the same height (= drawn on the
+   same row) have disjoint extents *)
+Lemma build_rows_disjoint N circ rloc subs cands protos out :
+  wf_region N rloc ->
+  Forall (feat_ok N circ rloc) subs -> Forall (feat_ok N circ rloc) cands -> Forall (feat_ok N circ rloc) protos ->
+  build_area_rows rloc N circ subs cands protos = Ok out ->
+  ForallOrdPairs (fun a b => a_height a = a_height b -> a_ne a <= a_ns b \/ a_ne b <= a_ns a) out.
+Proof.
+  intros Hr Hs Hc Hp H. unfold build_area_rows in H.
+  destruct (pack subs (-1)) as [sub_rows|k] eqn:E1; cbn [bind] in H; [|discriminate].
+  destruct (pack (filter (fun c => nonempty subs || negb (fsingle c)) cands) (-1)) as [cand_rows|k] eqn:E2;
+    cbn [bind] in H; [|discriminate].
+  destruct (pack (unique_protoclusters rloc protos) (-1)) as [proto_rows|k] eqn:E3; cbn [bind] in H; [|discriminate].
+  assert (H1 : Forall (row_good N circ rloc) sub_rows) by (eapply rows_good; [exact Hs|exact E1]).
+  assert (H2 : Forall (row_good N circ rloc) cand_rows).
+  { eapply rows_good; [|exact E2]. apply Forall_forall. intros x Hx. apply filter_In in Hx.
+    rewrite Forall_forall in Hc. apply Hc. tauto. }
+  assert (H3 : Forall (row_good N circ rloc) proto_rows).
+  { eapply rows_good; [|exact E3]. apply Forall_forall. intros x Hx. apply unique_in in Hx.
+    rewrite Forall_forall in Hp. apply Hp. exact Hx. }
+  destruct (add_rows rloc N (extend_over_origin rloc N circ) 0 ([], 0) (cand_rows ++ sub_rows)) as [[st height]|k] eqn:E4;
+    cbn [bind] in H; [|discriminate].
+  destruct (add_rows_disjoint N circ rloc (cand_rows ++ sub_rows) 0 ([], 0) st height Hr
+              (proj2 (Forall_app _ _ _) (conj H2 H1)) (FOP_nil _) (Forall_nil _) E4) as (D1 & L1 & _).
+  match type of H with (do r2 <- add_rows _ _ _ ?hh _ _; _) = _ =>
+    destruct (add_rows rloc N (extend_over_origin rloc N circ) hh st proto_rows) as [[st2 h2]|k] eqn:E5 end;
+    cbn [bind] in H; [|discriminate].
+  inversion H; subst out. cbn [fst].
+  assert (L1' : Forall (fun a => a_height a < match fst st with [] => height + 1 | _ :: _ => height end) (fst st)).
+  { eapply Forall_impl; [|exact L1]. cbn beta. intros a Ha. destruct (fst st); lia. }
+  destruct (add_rows_disjoint N circ rloc _ _ _ _ _ Hr H3 D1 L1' E5) as (D2 & _ & _).
+  exact D2.
+Qed.
+
+(* the decidable form used by the harness *)
+Lemma pairwise_FOP {A} (ok : A -> A -> bool) l :
+  ForallOrdPairs (fun a b => ok a b = true) l -> pairwise ok l = true.
+Proof.
+  induction 1 as [|x l Hx Hl IH]; cbn [pairwise]; [reflexivity|].
+  rewrite IH, andb_true_r. apply forallb_forall. rewrite Forall_forall in Hx. exact Hx.
+Qed.
+
+Lemma build_rows_disjoint_bool N circ rloc subs cands protos out :
+  wf_region N rloc ->
+  Forall (feat_ok N circ rloc) subs -> Forall (feat_ok N circ rloc) cands -> Forall (feat_ok N circ rloc) protos ->
+  build_area_rows rloc N circ subs cands protos = Ok out ->
+  pairwise extents_disjoint out = true.
+Proof.
+  intros Hr Hs Hc Hp H. apply pairwise_FOP.
+  pose proof (build_rows_disjoint N circ rloc subs cands protos out Hr Hs Hc Hp H) as Hd.
+  clear - Hd. induction Hd as [|x l Hx Hl IH]; constructor; [|exact IH].
+  eapply Forall_impl; [|exact Hx]. cbn beta. intros b Hb. unfold extents_disjoint.
+  destruct (a_height x =? a_height b) eqn:E; [|reflexivity].
+  assert (Heq : a_height x = a_height b) by lia. specialize (Hb Heq). clear - Hb. lia.
+Qed.
+
+(* ---------- genes of convert_cds_features ---------- *)
+(* a gene on a record of length N inside the region: non-empty, every exon a non-empty interval of the
+   record, every exon inside a part of the region; a gene that crosses the origin has an exon ending at N
+   and one starting at 0 *)
+Definition wf_gene (N : Z) (rloc g : loc) : Prop :=
+  g <> [] /\ Forall (fun p => 0 <= ps p /\ ps p < pe p /\ pe p <= N) g /\ contains rloc g = true /\
+  (bridges g = true -> (exists p, In p g /\ pe p = N) /\ (exists q, In q g /\ ps q = 0)).
+Definition unroll (s N x : Z) : Z := if x <? s then x + N else x.
+
+(* ---------- first / last part ---------- *)
+Fixpoint lastd (p : part) (t : list part) : part :=
+  match t with [] => p | q :: t' => lastd q t' end.
+
+Lemma last_part_cons2 p q t : last_part (p :: q :: t) = last_part (q :: t).
+Proof.
+  unfold last_part, last_opt. cbn [rev]. destruct (rev t); reflexivity.
+Qed.
+
+Lemma last_part_lastd t : forall p, last_part (p :: t) = lastd p t.
+Proof.
+  induction t as [|q t IH]; intros p.
+  - reflexivity.
+  - rewrite last_part_cons2. cbn [lastd]. apply IH.
+Qed.
+
+Lemma last_part_in g : g <> [] -> In (last_part g) g.
+Proof.
+  intros H. unfold last_part, last_opt. destruct (rev g) eqn:E.
+  - apply (f_equal (@rev _)) in E. rewrite rev_involutive in E. cbn in E. congruence.
+  - apply in_rev. rewrite E. left; reflexivity.
+Qed.
+
+Lemma first_part_in g : g <> [] -> In (first_part g) g.
+Proof. destruct g; [congruence|]. intros _. left; reflexivity. Qed.
+
+Lemma start_part_in g : g <> [] -> In (start_part g) g.
+Proof. intros H. unfold start_part. destruct (_ =? _); auto using last_part_in, first_part_in. Qed.
+Lemma end_part_in g : g <> [] -> In (end_part g) g.
+Proof. intros H. unfold end_part. destruct (_ =? _); auto using last_part_in, first_part_in. Qed.
+
+Lemma fstart_start_part g : loc_fstart g = ps (start_part g).
+Proof. unfold loc_fstart, start_part. destruct (_ =? _); reflexivity. Qed.
+Lemma fend_end_part g : loc_fend g = pe (end_part g).
+Proof. unfold loc_fend, end_part. destruct (_ =? _); reflexivity. Qed.
+
+(* ---------- order of the exon starts of a gene that does not cross the origin ---------- *)
+Lemma asc_last t : forall p, check_order 1 (p :: t) = false -> ps p <= ps (lastd p t).
+Proof.
+  induction t as [|q t IH]; intros p H.
+  - cbn. lia.
+  - cbn [check_order] in H. apply orb_false_iff in H. destruct H as [H1 H2].
+    specialize (IH q H2). cbn [lastd]. cbn in H1. clear - H1 IH. lia.
+Qed.
+
+Lemma desc_last t : forall p, check_order (-1) (p :: t) = false -> ps (lastd p t) <= ps p.
+Proof.
+  induction t as [|q t IH]; intros p H.
+  - cbn. lia.
+  - cbn [check_order] in H. apply orb_false_iff in H. destruct H as [H1 H2].
+    specialize (IH q H2). cbn [lastd]. cbn in H1. clear - H1 IH. lia.
+Qed.
+
+Lemma sorted_last t : forall p, sorted_le (map ps (p :: t)) = true -> ps p <= ps (lastd p t).
+Proof.
+  induction t as [|q t IH]; intros p H.
+  - cbn. lia.
+  - cbn [map sorted_le] in H. apply andb_true_iff in H. destruct H as [H1 H2].
+    specialize (IH q H2). cbn [lastd]. clear - H1 IH. lia.
+Qed.
+
+Lemma nb_order g : g <> [] -> bridges g = false -> ps (start_part g) <= ps (end_part g).
+Proof.
+  destruct g as [|p t]; [congruence|]. intros _ H.
+  unfold start_part, end_part. rewrite last_part_lastd. cbn [first_part].
+  destruct t as [|q t].
+  - cbn [lastd]. destruct (_ =? _); lia.
+  - unfold bridges in H. cbn [is_compound] in H. cbv zeta in H.
+    destruct (lstrand (p :: q :: t) =? -1) eqn:E1.
+    + assert (E : lstrand (p :: q :: t) = -1) by (clear - E1; lia).
+      rewrite E in H. cbn [Z.eqb orb] in H. apply desc_last; exact H.
+    + destruct (lstrand (p :: q :: t) =? 1) eqn:E2.
+      * assert (E : lstrand (p :: q :: t) = 1) by (clear - E2; lia).
+        rewrite E in H. cbn [Z.eqb Pos.eqb orb] in H. apply asc_last; exact H.
+      * cbn [orb] in H. apply negb_false_iff in H. apply sorted_last; exact H.
+Qed.
+
+(* ---------- containment in a one-part location ---------- *)
+Lemma contains1 r g : contains [r] g = true ->
+  forall p, In p g -> ps r <= ps p /\ pe p <= pe r.
+Proof.
+  unfold contains. rewrite forallb_forall. intros H p Hp. specialize (H p Hp).
+  cbn [existsb] in H. unfold part_contains in H. clear - H. lia.
+Qed.
+
+Lemma contains1_single r p : contains [r] [p] = true -> ps r <= ps p /\ pe p <= pe r.
+Proof. intros H. apply (contains1 r [p] H). left; reflexivity. Qed.
+
+Lemma wf_gene_part N rloc g p : wf_gene N rloc g -> In p g -> 0 <= ps p /\ ps p < pe p /\ pe p <= N.
+Proof. intros (_ & H & _) Hp. rewrite Forall_forall in H. apply H; exact Hp. Qed.
+
+(* start <= end for a gene that does not cross the origin *)
+Lemma nb_start_le_end N rloc g : wf_gene N rloc g -> bridges g = false -> loc_fstart g < loc_fend g.
+Proof.
+  intros W Hb. pose proof W as (Hne & _).
+  pose proof (nb_order g Hne Hb) as Ho.
+  pose proof (wf_gene_part N rloc g _ W (end_part_in g Hne)) as He.
+  rewrite fstart_start_part, fend_end_part. clear - Ho He. lia.
+Qed.
+
+(* ---------- region that does not cross the origin ---------- *)
+Lemma unwrapped_bridging_gene_whole_record N r g :
+  0 <= ps r -> pe r <= N -> wf_gene N [r] g -> bridges g = true -> ps r = 0 /\ pe r = N.
+Proof.
+  intros Hr0 HrN W Hb. destruct W as (_ & _ & Hc & Hx).
+  destruct (Hx Hb) as ((p & Hp & HpN) & (q & Hq & Hq0)).
+  pose proof (contains1 r g Hc p Hp). pose proof (contains1 r g Hc q Hq).
+  clear - Hr0 HrN HpN Hq0 H H0. lia.
+Qed.
+
+Lemma genes_unwrapped_region N r g grp more :
+  0 <= ps r -> ps r < pe r -> pe r <= N -> wf_gene N [r] g ->
+  (bridges g = false ->
+     convert_cds_features [r] N grp (g :: more) =
+       mkOrf (loc_fstart g + 1) (loc_fend g) (strand_or_1 (lstrand g)) 0
+       :: convert_cds_features [r] N grp more) /\
+  (bridges g = true ->
+     ps r = 0 /\ pe r = N /\
+     convert_cds_features [r] N grp (g :: more) =
+       mkOrf (loc_fstart g + 1) N (if lstrand g =? -1 then strand_or_1 (lstrand g) else 0) (grp + 1)
+       :: mkOrf 1 (loc_fend g) (if lstrand g =? -1 then 0 else strand_or_1 (lstrand g)) (grp + 1)
+       :: convert_cds_features [r] N (grp + 1) more /\
+     (0 <= grp -> grp + 1 <> 0)).
+Proof.
+  intros Hr0 Hr1 HrN W. destruct (loc1_facts r) as (Rb & _).
+  split; intros Hb.
+  - cbn [convert_cds_features]. rewrite Rb, Hb. reflexivity.
+  - destruct (unwrapped_bridging_gene_whole_record N r g Hr0 HrN W Hb) as (H0 & H1).
+    split; [exact H0|]. split; [exact H1|]. split.
+    + cbn [convert_cds_features]. rewrite Rb, Hb. reflexivity.
+    + intros. lia.
+Qed.
+
+(* ---------- region that crosses the origin ---------- *)
+Lemma wrapped_gene N r1 r2 g grp more :
+  pst r1 = 1 -> pst r2 = 1 -> 0 < ps r1 -> ps r1 < N -> pe r1 = N -> ps r2 = 0 -> 0 < pe r2 ->
+  pe r2 <= ps r1 ->
+  wf_gene N [r1; r2] g -> gene_guard [r1; r2] g = true ->
+  let a := unroll (ps r1) N (loc_fstart g) + 1 in
+  let b := unroll (ps r1) N (loc_fend g - 1) + 1 in
+  convert_cds_features [r1; r2] N grp (g :: more) =
+    mkOrf a b (strand_or_1 (lstrand g)) 0 :: convert_cds_features [r1; r2] N grp more /\
+  ps r1 + 1 <= a /\ a <= b + 1 /\ b <= N + pe r2.
+Proof.
+  intros Hs1 Hs2 Hr0 HrN Hr1 Hr3 Hr4 Hr5 W G.
+  destruct (loc2_facts r1 r2 Hs1 Hs2 Hr3 Hr0) as (Rb & Rs & Re & Rlast & Rfirst).
+  pose proof W as (Hne & _ & _ & Hx).
+  pose proof (wf_gene_part N _ g _ W (start_part_in g Hne)) as Psp.
+  pose proof (wf_gene_part N _ g _ W (end_part_in g Hne)) as Pep.
+  unfold gene_guard in G. rewrite Rb, Rlast, Rfirst in G. cbn [negb orb] in G.
+  cbn [convert_cds_features]. rewrite Rb, Rlast. cbn [negb]. rewrite andb_false_r.
+  cbv zeta. rewrite !fstart_start_part, !fend_end_part.
+  destruct (contains [r2] g) eqn:C2.
+  - (* the gene lies after the origin *)
+    assert (Hb : bridges g = false).
+    { destruct (bridges g) eqn:Hb; [|reflexivity]. exfalso.
+      destruct (Hx eq_refl) as ((p & Hp & HpN) & _).
+      pose proof (contains1 r2 g C2 p Hp). clear - H HpN Hr5 HrN. lia. }
+    pose proof (nb_order g Hne Hb) as Ho.
+    pose proof (contains1 r2 g C2 _ (start_part_in g Hne)) as Csp.
+    pose proof (contains1 r2 g C2 _ (end_part_in g Hne)) as Cep.
+    unfold unroll.
+    assert (E1 : (ps (start_part g) <? ps r1) = true) by (clear - Psp Csp Hr5; lia).
+    assert (E2 : (pe (end_part g) - 1 <? ps r1) = true) by (clear - Cep Hr5; lia).
+    rewrite E1, E2. split.
+    + f_equal; f_equal; clear; lia.
+    + clear - Psp Pep Csp Cep Ho Hr5 HrN Hr0. lia.
+  - destruct (bridges g) eqn:Hb.
+    + (* the gene crosses the origin *)
+      apply andb_true_iff in G. destruct G as [G1 G2].
+      apply contains1_single in G1. apply contains1_single in G2.
+      unfold unroll.
+      assert (E1 : (ps (start_part g) <? ps r1) = false) by (clear - G1; lia).
+      assert (E2 : (pe (end_part g) - 1 <? ps r1) = true) by (clear - G2 Hr5; lia).
+      rewrite E1, E2. split.
+      * f_equal; f_equal; clear; lia.
+      * clear - Psp Pep G1 G2 Hr5 HrN Hr0 Hr1. lia.
+    + (* the gene lies before the origin *)
+      cbn [orb] in G. rewrite orb_false_r in G.
+      pose proof (nb_order g Hne Hb) as Ho.
+      pose proof (contains1 r1 g G _ (start_part_in g Hne)) as Csp.
+      pose proof (contains1 r1 g G _ (end_part_in g Hne)) as Cep.
+      unfold unroll.
+      assert (E1 : (ps (start_part g) <? ps r1) = false) by (clear - Csp; lia).
+      assert (E2 : (pe (end_part g) - 1 <? ps r1) = false) by (clear - Cep Pep; lia).
+      rewrite E1, E2. split.
+      * f_equal; f_equal; clear; lia.
+      * clear - Psp Pep Csp Cep Ho Hr5 HrN Hr0 Hr1 Hr4. lia.
+Qed.
+
+Lemma genes_unrolled_parts N r1 r2 genes grp :
+  pst r1 = 1 -> pst r2 = 1 -> 0 < ps r1 -> ps r1 < N -> pe r1 = N -> ps r2 = 0 -> 0 < pe r2 ->
+  pe r2 <= ps r1 ->
+  Forall (wf_gene N [r1; r2]) genes -> Forall (fun g => gene_guard [r1; r2] g = true) genes ->
+  bridges [r1; r2] = true /\
+  convert_cds_features [r1; r2] N grp genes =
+    map (fun g => mkOrf (unroll (loc_fstart [r1; r2]) N (loc_fstart g) + 1)
+                        (unroll (loc_fstart [r1; r2]) N (loc_fend g - 1) + 1)
+                        (strand_or_1 (lstrand g)) 0) genes.
+Proof.
+  intros Hs1 Hs2 Hr0 HrN Hr1 Hr3 Hr4 Hr5 HW HG.
+  destruct (loc2_facts r1 r2 Hs1 Hs2 Hr3 Hr0) as (Rb & Rs & _).
+  split; [exact Rb|]. rewrite Rs.
+  induction genes as [|g more IH].
+  - reflexivity.
+  - pose proof (Forall_inv HW) as W; pose proof (Forall_inv_tail HW) as HW'. pose proof (Forall_inv HG) as G; pose proof (Forall_inv_tail HG) as HG'.
+    destruct (wrapped_gene N r1 r2 g grp more Hs1 Hs2 Hr0 HrN Hr1 Hr3 Hr4 Hr5 W G) as (E & _).
+    rewrite E. cbn [map]. f_equal. apply IH; assumption.
+Qed.
+
+(* the same statement phrased with wf_region and bridges as hypotheses *)
+Lemma genes_unrolled N rloc genes grp :
+  wf_region N rloc -> Forall (wf_gene N rloc) genes -> Forall (fun g => gene_guard rloc g = true) genes ->
+  bridges rloc = true ->
+  convert_cds_features rloc N grp genes =
+    map (fun g => mkOrf (unroll (loc_fstart rloc) N (loc_fstart g) + 1)
+                        (unroll (loc_fstart rloc) N (loc_fend g - 1) + 1)
+                        (strand_or_1 (lstrand g)) 0) genes.
+Proof.
+  intros [(r & -> & _) | (r1 & r2 & -> & Hs1 & Hs2 & Hr0 & HrN & Hr1 & Hr3 & Hr4 & Hr5)] HW HG Hb.
+  - destruct (loc1_facts r) as (Rb & _). congruence.
+  - apply genes_unrolled_parts; assumption.
+Qed.
+
+Lemma spec_orfs_cons se w o l :
+  spec_orfs se w (o :: l) =
+  ((if w then fst se + 1 else fst se) <=? o_start o) && (o_start o <=? o_end o + 1) && (o_end o <=? snd se)
+  && spec_orfs se w l.
+Proof. reflexivity. Qed.
+
+Lemma genes_in_range N rloc genes se :
+  wf_region N rloc -> Forall (wf_gene N rloc) genes -> Forall (fun g => gene_guard rloc g = true) genes ->
+  region_range rloc N = Ok se ->
+  forall grp, spec_orfs se (bridges rloc) (convert_cds_features rloc N grp genes) = true.
+Proof.
+  intros [(r & -> & Hr0 & Hr1 & HrN) | (r1 & r2 & -> & Hs1 & Hs2 & Hr0 & HrN & Hr1 & Hr3 & Hr4 & Hr5)]
+         HW HG HR.
+  - destruct (loc1_facts r) as (Rb & _ & _ & Rls & Rle & _).
+    unfold region_range in HR. rewrite Rb, Rls, Rle in HR. inversion HR; subst se; clear HR.
+    rewrite Rb. clear HG.
+    induction genes as [|g more IH]; intros grp.
+    + reflexivity.
+    + pose proof (Forall_inv HW) as W; pose proof (Forall_inv_tail HW) as HW'.
+      destruct (genes_unwrapped_region N r g grp more Hr0 Hr1 HrN W) as (Hnb & Hbr).
+      pose proof W as (Hne & _ & Hc & _).
+      pose proof (wf_gene_part N _ g _ W (start_part_in g Hne)) as Psp.
+      pose proof (wf_gene_part N _ g _ W (end_part_in g Hne)) as Pep.
+      pose proof (contains1 r g Hc _ (start_part_in g Hne)) as Csp.
+      pose proof (contains1 r g Hc _ (end_part_in g Hne)) as Cep.
+      destruct (bridges g) eqn:Hb.
+      * destruct (Hbr eq_refl) as (H0 & H1 & E & _). rewrite E.
+        rewrite !spec_orfs_cons, (IH HW' (grp + 1)). cbn [o_start o_end fst snd]. rewrite fstart_start_part, fend_end_part.
+        clear - H0 H1 Psp Pep. lia.
+      * rewrite (Hnb eq_refl).
+        pose proof (nb_start_le_end N _ g W Hb) as Hlt.
+        rewrite !spec_orfs_cons, (IH HW' grp). cbn [o_start o_end fst snd]. rewrite fstart_start_part, fend_end_part in *.
+        clear - Hlt Csp Cep. lia.
+  - destruct (loc2_facts r1 r2 Hs1 Hs2 Hr3 Hr0) as (Rb & Rs & Re & Rlast & Rfirst).
+    unfold region_range in HR. rewrite Rb, Rs, Rlast, Hr3 in HR. cbn in HR.
+    inversion HR; subst se; clear HR. rewrite Rb. intros grp.
+    induction genes as [|g more IH].
+    + reflexivity.
+    + pose proof (Forall_inv HW) as W; pose proof (Forall_inv_tail HW) as HW'. pose proof (Forall_inv HG) as G; pose proof (Forall_inv_tail HG) as HG'.
+      destruct (wrapped_gene N r1 r2 g grp more Hs1 Hs2 Hr0 HrN Hr1 Hr3 Hr4 Hr5 W G) as (E & B1 & B2 & B3).
+      rewrite E, spec_orfs_cons, (IH HW' HG'). cbn [o_start o_end fst snd]. clear - B1 B2 B3. lia.
+Qed.
+
+(* a well-formed region that does not cross the origin has one part *)
+Lemma unwrapped_region_one_part N rloc :
+  wf_region N rloc -> bridges rloc = false ->
+  exists r, rloc = [r] /\ 0 <= ps r /\ ps r < pe r /\ pe r <= N.
+Proof.
+  intros [H | (r1 & r2 & -> & Hs1 & Hs2 & Hr0 & _ & _ & Hr3 & _)] Hb; [exact H|].
+  destruct (loc2_facts r1 r2 Hs1 Hs2 Hr3 Hr0) as (Rb & _). congruence.
+Qed.
+
+(* ---------- inputs of the non-vacuity examples of Theorems.v ---------- *)
+Definition ex_s0 := mkFeat 0 K_Sub [mkPart 0 100 1] None false 1.
+Definition ex_s1 := mkFeat 1 K_Sub [mkPart 40 960 1] None false 2.
+Definition ex_s2 := mkFeat 2 K_Sub [mkPart 300 600 1] None false 3.
+Definition ex_s3 := mkFeat 3 K_Sub [mkPart 900 1000 1; mkPart 0 50 1] None false 4.
+Definition ex_p0 := mkFeat 0 K_Proto [mkPart 950 1000 1; mkPart 0 80 1] (Some [mkPart 10 30 1]) false 7.
+Definition ex_whole : loc := [mkPart 0 1000 1].
+
+Definition ex_N := 1000.
+Definition ex_rloc : loc := [mkPart 800 1000 1; mkPart 0 300 1].
+Definition ex_genes : list loc :=
+  [ [mkPart 850 900 1]; [mkPart 10 40 (-1)]; [mkPart 990 1000 1; mkPart 0 20 1];
+    [mkPart 0 15 (-1); mkPart 980 1000 (-1)] ].
+
+Ltac wf_gene_tac :=
+  unfold ex_N, ex_rloc; split; [discriminate|]; split; [repeat (apply Forall_cons; [cbn; lia|]); apply Forall_nil|]; split; [reflexivity|];
+  intros Hb; first [ vm_compute in Hb; discriminate Hb
+                   | split; eauto 8 using in_eq, in_cons ].
